@@ -69,6 +69,7 @@ type stats struct {
 	replaced      bool // Remove URR and Create URR for one id in one message
 	lostAnswers   int  // Modification Responses that reached the SMF through a retransmission of the request only
 	refusedCreate bool // a Create URR for a URR that exists
+	abandoned     int  // report requests given up after the last retransmission
 	sendFailed    int  // report requests that reached the SMF as a retransmission only (first transmission failed locally)
 }
 
@@ -179,6 +180,10 @@ func gen(t *rapid.T) Case {
 				e.N = rapid.SampledFrom([]int{40, 63, 64, 65, 70, 130}).Draw(t, "burst_n")
 			}
 			evs = append(evs, e)
+			if e.N == 0 && rapid.IntRange(0, 4).Draw(t, "giveup") == 0 {
+				// the SMF stays silent for good: every outstanding report request is retransmitted until the UPF gives up
+				evs = append(evs, Ev{Kind: "giveup", Sess: si})
+			}
 		case "mod":
 			var rules []stack.RuleOp
 			touched := map[uint32]bool{}
@@ -425,6 +430,22 @@ func run(c Case) (v *vcore.Violation, stt stats) {
 					stt.unsendable++
 				}
 			}
+		case "giveup":
+			// every outstanding report request runs out of retransmissions and is abandoned; the numbers its reports took stay
+			// taken (they were emitted, the SMF may have seen them), so the next report of each URR goes on counting
+			for id := range st.Srv.VerifTxTable() {
+				for k := 0; k < 8; k++ {
+					if _, still := st.Srv.VerifTxTable()[id]; !still {
+						stt.abandoned++
+						break
+					}
+					o := r.Step(stack.Op{Kind: "expire_tx", TrID: id})
+					if o.Dead != nil {
+						return vcore.Violatef(o.Dead.Key, "event %d: UPF fatal exit: %.400s", i, o.Dead.Msg), stt
+					}
+					r.Pending[0] = nil
+				}
+			}
 		case "reportfail":
 			// the first transmission of the report request fails locally (full device queue, filter, route flap); the request
 			// is outstanding all the same and its retransmission, sent once the socket works again, carries the numbers it
@@ -588,6 +609,9 @@ func account(c Case, s stats) {
 	}
 	if s.refusedCreate {
 		vcore.E.Class("create_urr_for_a_urr_that_exists")
+	}
+	if s.abandoned > 0 {
+		vcore.E.Class("report_request_abandoned_after_the_last_retransmission")
 	}
 	if s.sendFailed > 0 {
 		vcore.E.Class("report_request_whose_first_transmission_failed")
